@@ -331,6 +331,8 @@ class Kinds:
     sites = self.site_index().get(f.qualname, [])
     if not sites or f.name in self._value_names:
       return None
+    if name not in f.params:
+      return None
     self._busy.add(key)
     idx = f.params.index(name) - (1 if f.kind in ('method', 'classmethod') else 0)
     defaults = {}
